@@ -359,20 +359,7 @@ func checkC18(p *Prog, l *Ledger) {
 		scratch := NewLedger("tmp", "quick", 0, "")
 		checkMunchTable(p, scratch, run.m.G)
 		table, _ := scratch.Extra["scanner_decision_table"].(map[string]map[string]string)
-		kw := map[string]string{}
-		names := p.tokenNames()
-		if pk := p.Pkg("lexer"); pk != nil && pk.Func("init") != nil {
-			instrsOf(pk.Func("init"), func(in ssa.Instruction) {
-				if mu, ok := in.(*ssa.MapUpdate); ok {
-					k, ok1 := mu.Key.(*ssa.Const)
-					v, ok2 := constInt(mu.Value)
-					if ok1 && ok2 && k.Value != nil {
-						s, _ := unquoteGo(k.Value.ExactString())
-						kw[nfc(s)] = names[v]
-					}
-				}
-			})
-		}
+		kw := p.KeywordTable()
 		for _, syn := range []struct{ sym, first, second, word string }{{"&&", `'&'`, `'&'`, "এবং"}, {"||", `'|'`, `'|'`, "বা"}} {
 			got := table[syn.first][syn.second+":T,"]
 			want := kw[nfc(syn.word)]
@@ -434,7 +421,7 @@ func checkC18(p *Prog, l *Ledger) {
 				ok, why = true, "String() rendering"
 			case "append":
 				if !ok {
-					ok = strings.HasSuffix(s.Desc, ": []string") && fk == "parser.(*Parser).objectLiteral"
+					ok = strings.HasSuffix(s.Desc, ": []string") && (fk == "parser.(*Parser).objectLiteral" || (fnPkgName(s.Fn) == "parser" && p.OwnedBy(s.Fn, "parser.(*Parser).objectLiteral")))
 					why = "recorded in the literal's name list (property names are data: the documented second class)"
 				}
 			case "field-store":
